@@ -5,6 +5,8 @@
                                                | invalid:<reason>@<event index>
     server judge <cap> <mode> <event>… | <id>=<resp>… | <idle 0|1>
                                              → ok | violation <key> id=<id> [other=<id>] expected=<resp>
+    server progress <Q:<id>|D|X:<id>>…       → ok | violation starved id=<id> depth=<k> completions=<n>
+                                               (Q = entered the queue, D = model call completed, X = caller answered)
     server bytes <hex32>…                    → ok <hex bytes|-> <hex32>…      (encode, then decode)
     server unbytes <hex bytes|->             → ok <hex32>… | refused           (decode only)
 
@@ -114,6 +116,19 @@ def handleJudge (cap : Nat) (mode : String) (rest : List String) : Option String
     | .unknownId id => pure s!"violation unknown-id id={id}"
   | _ => none
 
+def parseObs (s : String) : Option Obs :=
+  match s.splitOn ":" with
+  | ["Q", id] => id.toNat?.map .entered
+  | ["X", id] => id.toNat?.map .answered
+  | ["D"] => some .completed
+  | _ => none
+
+def handleProgress (toks : List String) : Option String := do
+  let os ← toks.mapM parseObs
+  match firstStarved [] os with
+  | none => pure "ok"
+  | some x => pure s!"violation starved id={x.id} depth={x.depth} completions={x.seen}"
+
 /-! hex -/
 
 def hexDigit (c : Char) : Option Nat :=
@@ -169,6 +184,7 @@ def handle : List String → Option String
   | "judge" :: cap :: mode :: rest => do
     let cap ← cap.toNat?
     handleJudge cap mode rest
+  | "progress" :: toks => handleProgress toks
   | "bytes" :: args => handleBytes args
   | ["unbytes", arg] => handleUnbytes arg
   | _ => none
